@@ -234,8 +234,18 @@ def rule_d(ctx, out):
                         if isinstance(c, ast.Compare) and isinstance(c.ops[0], ast.NotIn) and is_name(c.comparators[0], "already_considered"):
                             guarded = True
                 cur = p
-            if guarded and records:
-                out.ok({"folder": f.name, "discount": short(inc), "counted": "once per expression"})
+            # the discount stands for instructions that disappear: after it was taken, the fold may not be rejected any more
+            # (size gate): every return reachable from the increment hands out the folded value (first component True)
+            cfg = ctx.cfg(f)
+            inc_node = cfg.stmt_node(inc)
+            rejecting = [x for x in cfg.nodes if x.kind == "stmt" and isinstance(x.ast, ast.Return) and isinstance(x.ast.value, ast.Tuple) and x.ast.value.elts
+                         and isinstance(x.ast.value.elts[0], ast.Constant) and x.ast.value.elts[0].value is False]
+            late = [r for r in rejecting if inc_node is not None and cfg.paths_avoiding(inc_node, r, set(), skip_exc=True)]
+            if late:
+                out.bad(f"{f.name}:discount-kept-for-rejected-fold", f"{f.name}: after `{short(inc)}` the fold can still be rejected (`{short(late[0].ast, 50)}`, line "
+                        f"{late[0].ast.lineno}): the instructions stay in the block but the published bound init_progr_len no longer counts them", where(f, late[0].ast))
+            elif guarded and records:
+                out.ok({"folder": f.name, "discount": short(inc), "counted": "once per expression", "rejections_after_it": 0})
             else:
                 out.bad(f"{f.name}:discount-counted-per-consumer", f"{f.name} adds `{short(inc)}` every time the folded expression is evaluated; a constant "
                         f"that is duplicated is evaluated once per consumer, so init_progr_len = instructions - discount becomes too small "
